@@ -1,7 +1,9 @@
 // Driver for C36: runs the real heartbeatAction.execute (pkg/tbtc/heartbeat.go) with stub
 // chain / signing / inactivity-claim collaborators over histories of heartbeat outcomes for
 // several wallets that share ONE heartbeatFailureCounter, and prints the cases for the Coq
-// model (Model/C36.v).  Wallets become N identifiers 1..W, members are their MemberIndex.
+// model (Model/C36.v).  A wallet is identified in the model by its FULL public key (the integer
+// 04‖X‖Y); how similar the keys of the wallets of one history are is a generator dimension
+// (keys.go).  Members are their MemberIndex.
 package main
 
 import (
@@ -11,6 +13,7 @@ import (
 	"fmt"
 	"math/big"
 	"os"
+	"sort"
 	"strings"
 	"sync"
 
@@ -34,8 +37,11 @@ type event struct {
 }
 
 type input struct {
-	Concurrent bool    `json:"concurrent"` // one goroutine per wallet instead of one global order
-	Events     []event `json:"events"`
+	Concurrent bool `json:"concurrent"` // one goroutine per wallet instead of one global order
+	// private scalars (hex) of wallet slots 1..len(Keys); a slot beyond the table has scalar 1000+slot
+	Keys   []string `json:"keys,omitempty"`
+	Family string   `json:"family,omitempty"` // the key family the table was drawn from (informational)
+	Events []event  `json:"events"`
 }
 
 type observed struct {
@@ -84,9 +90,23 @@ func (f *fakeChain) ValidateHeartbeatProposal([20]byte, *tbtc.HeartbeatProposal)
 	return errors.New("stub: proposal rejected")
 }
 
-func walletKey(i int) *ecdsa.PublicKey {
-	x, y := tecdsa.Curve.ScalarBaseMult(big.NewInt(int64(1000 + i)).Bytes())
-	return &ecdsa.PublicKey{Curve: tecdsa.Curve, X: x, Y: y}
+// the key of every wallet slot used by the events
+func resolveKeys(in input) (map[int]*keyPoint, error) {
+	out := map[int]*keyPoint{}
+	for _, ev := range in.Events {
+		if _, ok := out[ev.Wallet]; ok {
+			continue
+		}
+		d := big.NewInt(int64(1000 + ev.Wallet))
+		if ev.Wallet >= 1 && ev.Wallet <= len(in.Keys) {
+			var err error
+			if d, err = scalarFromHex(in.Keys[ev.Wallet-1]); err != nil {
+				return nil, err
+			}
+		}
+		out[ev.Wallet] = pointOf(d)
+	}
+	return out, nil
 }
 
 func classify(err error) string {
@@ -112,8 +132,8 @@ func classify(err error) string {
 }
 
 // one real execute() call
-func execOne(counter *tbtc.VerifC36Counter, ev event, seq int) (obs observed) {
-	pub := walletKey(ev.Wallet)
+func execOne(counter *tbtc.VerifC36Counter, key *keyPoint, ev event, seq int) (obs observed) {
+	var pub *ecdsa.PublicKey = key.pub()
 	release := make(chan struct{})
 	var mu sync.Mutex
 	defer func() {
@@ -196,7 +216,7 @@ func coqInput(ev event) string {
 		sign = fmt.Sprintf("(SgOk %s %s)", lib.Z(int64(ev.Active)), lib.ListN(ms))
 	}
 	return fmt.Sprintf("{| i_wallet := %s; i_stake := %s; i_valid := %s; i_expiry := %s; i_sign := %s; i_claim_fails := %s |}",
-		lib.N(uint64(ev.Wallet)), stake, lib.Bool(ev.Valid), lib.ZU(ev.Expiry), sign, lib.Bool(ev.ClaimFails))
+		fmt.Sprintf("k%d", ev.Wallet), stake, lib.Bool(ev.Valid), lib.ZU(ev.Expiry), sign, lib.Bool(ev.ClaimFails))
 }
 
 func coqOutput(o observed) string {
@@ -215,18 +235,26 @@ func coqOutput(o observed) string {
 func run(in input, em *lib.Emitter, id string) {
 	counter := tbtc.VerifC36NewCounter()
 	events := in.Events
+	keys, err := resolveKeys(in)
+	if err != nil {
+		fmt.Fprintln(os.Stderr, err)
+		os.Exit(2)
+	}
 	outs := make([]observed, len(events))
+	ident := func(slot int) string { return keys[slot].fullKey().Text(16) }
 	if in.Concurrent {
-		// one goroutine per wallet, all sharing the counter; the case lists the events wallet
-		// by wallet (any order keeping each wallet's own order is equivalent:
+		// one goroutine per wallet (= per distinct FULL key: two slots holding the same key are one
+		// wallet, whose heartbeats do not overlap), all sharing the counter; the case lists the
+		// events wallet by wallet (any order keeping each wallet's own order is equivalent:
 		// Props wallets_independent)
-		byWallet := map[int][]int{}
-		var order []int
+		byWallet := map[string][]int{}
+		var order []string
 		for i, ev := range events {
-			if _, ok := byWallet[ev.Wallet]; !ok {
-				order = append(order, ev.Wallet)
+			w := ident(ev.Wallet)
+			if _, ok := byWallet[w]; !ok {
+				order = append(order, w)
 			}
-			byWallet[ev.Wallet] = append(byWallet[ev.Wallet], i)
+			byWallet[w] = append(byWallet[w], i)
 		}
 		var wg sync.WaitGroup
 		start := make(chan struct{})
@@ -236,7 +264,7 @@ func run(in input, em *lib.Emitter, id string) {
 				defer wg.Done()
 				<-start
 				for _, i := range idx {
-					outs[i] = execOne(counter, events[i], i)
+					outs[i] = execOne(counter, keys[events[i].Wallet], events[i], i)
 				}
 			}(byWallet[w])
 		}
@@ -253,17 +281,17 @@ func run(in input, em *lib.Emitter, id string) {
 		events, outs = ne, no
 	} else {
 		for i, ev := range events {
-			outs[i] = execOne(counter, ev, i)
+			outs[i] = execOne(counter, keys[ev.Wallet], ev, i)
 		}
 	}
 	ins := make([]string, len(events))
 	os_ := make([]string, len(events))
-	wallets := map[int]bool{}
+	wallets := map[string]bool{}
 	claims, low, succ := 0, 0, 0
 	for i := range events {
 		ins[i] = coqInput(events[i])
 		os_[i] = coqOutput(outs[i])
-		wallets[events[i].Wallet] = true
+		wallets[ident(events[i].Wallet)] = true
 		if outs[i].Claimed {
 			claims++
 		}
@@ -286,15 +314,50 @@ func run(in input, em *lib.Emitter, id string) {
 		em.Tally("history-with-claim")
 	}
 	em.Tally(fmt.Sprintf("len-%02d", (len(events)+4)/5*5))
-	coq := fmt.Sprintf("{| c_inputs := %s; c_observed := %s |}", lib.List(ins), lib.List(os_))
+	// the wallets' identities: k<slot> := the integer 04‖X‖Y; how the keys of the history resemble
+	// each other (closest relation over all pairs of different keys)
+	slots := make([]int, 0, len(keys))
+	for slot := range keys {
+		slots = append(slots, slot)
+	}
+	sort.Ints(slots)
+	lets := ""
+	outKeys := map[string]string{}
+	rank := map[string]int{"same-x": 0, "same-y": 1, "x-prefix-3": 2, "x-prefix-2": 3, "y-suffix-3": 4,
+		"y-suffix-2": 5, "x-prefix-1": 6, "y-suffix-1": 7, "unrelated": 8}
+	closest := "single-wallet"
+	pairs := map[string]bool{}
+	for a, slot := range slots {
+		// (hexadecimal: Coq reads a 520-bit hexadecimal literal three times faster than a decimal one)
+		lets += fmt.Sprintf("let k%d := 0x%s%%N in ", slot, ident(slot))
+		outKeys[fmt.Sprintf("k%d", slot)] = "0" + ident(slot)
+		for _, other := range slots[:a] {
+			rel := relationOf(keys[slot], keys[other])
+			pairs[rel] = true
+			if rel == "same-key" {
+				continue
+			}
+			if r, ok := rank[closest]; !ok || rank[rel] < r {
+				closest = rel
+			}
+		}
+	}
+	for rel := range pairs {
+		em.Tally("keys-pair-" + rel)
+	}
+	em.Tally("keys-closest-" + closest)
+	if in.Family != "" {
+		em.Tally("keys-family-" + in.Family)
+	}
+	coq := fmt.Sprintf("(%s{| c_inputs := %s; c_observed := %s |})", lets, lib.List(ins), lib.List(os_))
 	em.Case(lib.Case{
 		ID:         id,
 		Coq:        coq,
-		Key:        strings.Join(ins, ";"),
+		Key:        lets + strings.Join(ins, ";"),
 		Nontrivial: low >= 3 && (succ >= 1 || len(wallets) >= 2),
-		Sig:        map[string]interface{}{"concurrent": in.Concurrent, "claims": claims > 0},
+		Sig:        map[string]interface{}{"concurrent": in.Concurrent, "claims": claims > 0, "keys": closest},
 		In:         in,
-		Out:        outs,
+		Out:        map[string]interface{}{"wallets": outKeys, "steps": outs},
 	})
 }
 
@@ -384,6 +447,11 @@ func main() {
 		return
 	}
 	rng := lib.NewRng(o.Seed)
+	if err := selfCheckKeys(); err != nil {
+		fmt.Fprintln(os.Stderr, err)
+		os.Exit(2)
+	}
+	pool := newKeyPool(rng.Fork("keypool"), o.Count(1500, 12000))
 
 	low := func(w int, inact ...uint8) event {
 		return event{Wallet: w, Stake: "pos", Valid: true, Expiry: 1000, Active: 69, Inactive: inact}
@@ -393,15 +461,51 @@ func main() {
 	}
 	with := func(e event, f func(*event)) event { f(&e); return e }
 	// --- corpus
-	run(input{false, []event{low(1, 5), low(1, 5), low(1, 5, 6), low(1, 7)}}, em, "corpus-third-and-fourth-failure-claim")
-	run(input{false, []event{low(1, 5), low(1, 5), ok(1), low(1, 5), low(1, 5), low(1, 5)}}, em, "corpus-success-resets")
-	run(input{false, []event{low(1, 5), low(2, 5), low(1, 5), low(2, 5), low(3, 1), low(1, 4), low(2, 8)}}, em, "corpus-wallets-interleaved")
-	run(input{false, []event{low(1, 5), low(1, 5), low(1), low(1, 3)}}, em, "corpus-empty-inactive-set")
-	run(input{false, []event{low(1, 5), with(low(1, 5), func(e *event) { e.SignErr = true }), low(1, 5),
+	run(input{Events: []event{low(1, 5), low(1, 5), low(1, 5, 6), low(1, 7)}}, em, "corpus-third-and-fourth-failure-claim")
+	run(input{Events: []event{low(1, 5), low(1, 5), ok(1), low(1, 5), low(1, 5), low(1, 5)}}, em, "corpus-success-resets")
+	run(input{Events: []event{low(1, 5), low(2, 5), low(1, 5), low(2, 5), low(3, 1), low(1, 4), low(2, 8)}}, em, "corpus-wallets-interleaved")
+	run(input{Events: []event{low(1, 5), low(1, 5), low(1), low(1, 3)}}, em, "corpus-empty-inactive-set")
+	run(input{Events: []event{low(1, 5), with(low(1, 5), func(e *event) { e.SignErr = true }), low(1, 5),
 		with(low(1, 5), func(e *event) { e.Stake = "zero" }), with(low(1, 5), func(e *event) { e.Valid = false }),
 		with(low(1, 5), func(e *event) { e.Expiry = 299 }), low(1, 5)}}, em, "corpus-non-failures-do-not-count-or-reset")
-	run(input{false, []event{low(1, 5), low(1, 5), with(low(1, 5), func(e *event) { e.ClaimFails = true }), low(1, 2)}}, em, "corpus-claim-error")
-	run(input{true, []event{low(1, 5), low(2, 5), low(1, 5), low(2, 5), low(1, 4), low(2, 8), ok(1), low(2, 1)}}, em, "corpus-concurrent-wallets")
+	run(input{Events: []event{low(1, 5), low(1, 5), with(low(1, 5), func(e *event) { e.ClaimFails = true }), low(1, 2)}}, em, "corpus-claim-error")
+	run(input{Concurrent: true, Events: []event{low(1, 5), low(2, 5), low(1, 5), low(2, 5), low(1, 4), low(2, 8), ok(1), low(2, 1)}}, em, "corpus-concurrent-wallets")
+	// wallets whose keys resemble each other (fixed scalars; P = d*G):
+	//   A low, B low, A low            => nobody is accused (A's run is two, B's is one)
+	//   A low, A low, B success, A low => A is accused on its third (B's success is not A's)
+	//   B low, B low, A low, A low, A success, B low => B is accused (A's success is not B's)
+	cd, _ := new(big.Int).SetString("c36b0000000000000000000000000000000000000000000000000000000001d7", 16)
+	xp := pool.related(rng.Fork("corpus-xprefix"), &pool.xprefix, sameXPrefix)
+	ys := pool.related(rng.Fork("corpus-ysuffix"), &pool.ysuffix, sameYSuffix)
+	pairsOf := []struct {
+		name string
+		keys []string
+	}{
+		{"neg", []string{scalarHex(cd), scalarHex(negS(cd))}},
+		{"samey", []string{scalarHex(cd), scalarHex(mulL(cd))}},
+		{"samey2", []string{scalarHex(mulL(mulL(cd))), scalarHex(cd)}},
+		{"xprefix", []string{scalarHex(pool.pts[xp[0]].d), scalarHex(pool.pts[xp[1]].d)}},
+		{"ysuffix", []string{scalarHex(pool.pts[ys[0]].d), scalarHex(pool.pts[ys[1]].d)}},
+	}
+	for _, pk := range pairsOf {
+		for _, conc := range []bool{false, true} {
+			mode := "seq"
+			if conc {
+				mode = "conc"
+			}
+			if !conc {
+				run(input{Keys: pk.keys, Family: pk.name, Events: []event{low(1, 5), low(2, 6), low(1, 5)}},
+					em, "corpus-keys-"+pk.name+"-no-claim-from-the-other-wallets-run")
+			}
+			run(input{Concurrent: conc, Keys: pk.keys, Family: pk.name, Events: []event{low(1, 5), low(1, 5), ok(2), low(1, 5)}},
+				em, "corpus-keys-"+pk.name+"-"+mode+"-success-of-the-other-wallet-does-not-reset")
+			run(input{Concurrent: conc, Keys: pk.keys, Family: pk.name, Events: []event{low(2, 6), low(2, 6), low(1, 5), low(1, 5), ok(1), low(2, 6)}},
+				em, "corpus-keys-"+pk.name+"-"+mode+"-claim-for-the-wallet-that-failed-thrice")
+		}
+	}
+	// the same key in two slots (two different *ecdsa.PublicKey objects) is ONE wallet
+	run(input{Keys: []string{scalarHex(cd), scalarHex(cd)}, Family: "dup", Events: []event{low(1, 5), low(2, 5), low(1, 5), ok(2), low(1, 5)}},
+		em, "corpus-keys-dup-one-wallet")
 
 	// --- exhaustive small scope: ONE wallet, alphabet of 6 outcomes, every history of length <= L;
 	//     TWO wallets, alphabet {low, success} x wallet, every history of length <= L2
@@ -422,7 +526,7 @@ func main() {
 	enum = func(prefix []event, depth int) {
 		if len(prefix) == depth {
 			count++
-			run(input{false, append([]event{}, prefix...)}, em, fmt.Sprintf("enum1-%d-%d", depth, count))
+			run(input{Events: append([]event{}, prefix...)}, em, fmt.Sprintf("enum1-%d-%d", depth, count))
 			return
 		}
 		for _, a := range alpha {
@@ -440,11 +544,16 @@ func main() {
 	if o.Tier != "quick" {
 		L2 = 7
 	}
+	// every two-wallet history runs on a pair of RELATED keys; the family is drawn per history
+	pairKinds := []string{"neg", "neg", "samey", "xprefix", "ysuffix", "orbit", "plain"}
 	var enum2 func(prefix []event)
 	enum2 = func(prefix []event) {
 		if len(prefix) == L2 {
 			count++
-			run(input{false, append([]event{}, prefix...)}, em, fmt.Sprintf("enum2-%d", count))
+			r := rng.Fork(fmt.Sprintf("enum2-%d", count))
+			kind := pairKinds[r.Intn(len(pairKinds))]
+			run(input{Keys: keyFamily(r, pool, kind, 2), Family: kind, Events: append([]event{}, prefix...)},
+				em, fmt.Sprintf("enum2-%d", count))
 			return
 		}
 		for _, a := range alpha2 {
@@ -453,8 +562,8 @@ func main() {
 	}
 	enum2(nil)
 
-	// --- random histories over 1..5 wallets
-	n := o.Count(500, 6000)
+	// --- random histories over 1..5 wallets whose keys come from one family
+	n := o.Count(400, 6000)
 	for i := 0; i < n; i++ {
 		r := rng.Fork(fmt.Sprintf("rand%d", i))
 		wallets := r.Range(1, 5)
@@ -464,9 +573,14 @@ func main() {
 		if pLow+pSucc > 100 {
 			pSucc = 100 - pLow
 		}
-		run(input{r.Chance(1, 3), randomHistory(r, wallets, length, pLow, pSucc)}, em, fmt.Sprintf("rand-%d", i))
+		kind := keyKinds[r.Intn(len(keyKinds))]
+		conc := r.Chance(1, 3)
+		run(input{Concurrent: conc, Keys: keyFamily(r, pool, kind, wallets), Family: kind,
+			Events: randomHistory(r, wallets, length, pLow, pSucc)}, em, fmt.Sprintf("rand-%d", i))
 	}
 	em.Close("a case is one history of heartbeat executions over wallets sharing one failure counter, each event "+
-		"run through the real heartbeatAction.execute; distinct by the full list of event inputs; non-trivial when "+
+		"run through the real heartbeatAction.execute; wallets are identified by their full public key and their keys "+
+		"come from a family of related keys (P/-P, same Y, shared X-prefix / Y-suffix bytes, same key twice, unrelated); "+
+		"distinct by the keys and the full list of event inputs; non-trivial when "+
 		"the history has >= 3 low-activity heartbeats and (a success or >= 2 wallets)", nil)
 }
